@@ -46,8 +46,9 @@ PROPS = {
         trusted=["OS file system below the modelled rename/delete semantics"],
     ),
     "C09": dict(
-        lean_modules=["Liftbridge.Props.C09", "Liftbridge.Props.CleanRace"],
-        gen_sources=["server/commitlog/delete_cleaner.go"],
+        # Props.GoRetention: the model's Retention.clean = the translated body of deleteCleaner.Clean (all passes, all loops), with its effect trace
+        lean_modules=["Liftbridge.Props.C09", "Liftbridge.Props.CleanRace", "Liftbridge.Props.GoRetention"],
+        gen_sources=["server/commitlog/delete_cleaner.go", "server/commitlog/delete_cleaner.go:gomini:deleteCleaner.Clean"],
         go_pkg="./server/commitlog", test="TestVerifC09",
         level="proof",
         assumptions=LOG_ASSUME + ["the clock is an explicit input: computeTTL is mocked to return the ttl of each clean"],
